@@ -194,6 +194,7 @@ CONTRACTS = {
         imports={"is_type_compatible": "hypergraph._typing"},
         # every edge of the built graph joins two of its nodes (established by _build_graph)
         requires=["all(e[0] in nodes and e[1] in nodes for e in nx_graph.edges(data=True))"],
+        call_site="opaque",  # the precondition is a fact about Graph._build_graph (networkx), not discharged by validate_graph
         # strict mode: rejected iff SOME value on SOME edge lacks an annotation on either side or has incompatible types -
         # whichever edge, whichever consumer of a value that fans out
         raises={"GraphConfigError": "any((bool(e[2].get('value_names')) and any(nodes[e[0]].get_output_type(v) is None or nodes[e[1]].get_input_type(v) is None or not is_type_compatible(nodes[e[0]].get_output_type(v), nodes[e[1]].get_input_type(v)) for v in e[2].get('value_names'))) for e in nx_graph.edges(data=True))"},
